@@ -324,7 +324,12 @@ def main():
         what = f.get('what') if isinstance(f, dict) and 'what' in f else f.get('name')
         log('  what: %s' % str(what)[:300])
         exit_code = 1
-    missed = [c for c in canaries if c['status'] in ('MISSED', 'stale')]
+    # a canary whose anchor text is gone means the source it edits was changed (e.g. a refactoring): it says nothing about
+    # the checker any more and is skipped with a note; only a canary that applies and is NOT caught is a checker error
+    for c in canaries:
+        if c['status'] == 'stale':
+            log('NOTE canary %s skipped: %s (the source text it edits has changed)' % (c['canary'], c.get('why', '')))
+    missed = [c for c in canaries if c['status'] == 'MISSED']
     if exit_code == 0:
         if checker_errors or disagreements or rtc_err or missed:
             for e in checker_errors[:3]:
